@@ -85,6 +85,9 @@ def gen_bad(rng):
         f"{rng.choice('DEGHJKQUVWXYZ')}7:1", f"S:{rng.choice([256, 999])}", f"S:1/{rng.choice([16, 20])}", f"I:{rng.choice([256, 999])}", f"O:1/{rng.choice([16, 99])}",
         f"T{rng.choice([0, 256])}:1.PRE", f"C5:{rng.choice([256, 999])}.ACC", f"B3:1/{rng.choice([16, 44])}",
         f"{rng.choice('NBL')}0:{rng.randrange(4)}/{rng.randrange(16)}", f"{rng.choice('nb')}0:1/3", f"F0:1", f"L{rng.choice([256, 300])}:1/2",
+        # input / output elements beyond 255 in each of their forms (word, word of a slot, bit, bit of a word of a slot)
+        f"{rng.choice('IO')}:{rng.choice([256, 300, 999])}/{rng.randrange(16)}", f"{rng.choice('IO')}:{rng.choice([256, 999])}.{rng.randrange(4)}",
+        f"{rng.choice('IOio')}:{rng.choice([256, 257, 999])}.{rng.randrange(4)}/{rng.randrange(16)}",
     ])
 
 
